@@ -460,11 +460,18 @@ def simple_stmt(draw, env):
     # bind a python name to an expression result (an intermediate), usable by later statements of the block
     if draw(st.booleans()):
         name = env.fresh("tv")
-        e = draw(vec_expr(env, 2).filter(lambda e: e[0] not in ("const",)))
-        env.loc_vecs.append(name)
-        return {"k": "bind", "bind": name, "e": e}
+        # a bound intermediate is always a computed value (binding a bare object would alias it)
+        e = draw(vec_expr(env, 2))
+        if e[0] in ("const", "in", "sig", "var", "loc"):
+            nc = nonconst_vec_leaf(env)
+            e = ["inv", draw(nc)] if nc is not None else None
+        if e is not None:
+            env.loc_vecs.append(name)
+            return {"k": "bind", "bind": name, "e": e}
     name = env.fresh("tb")
-    e = draw(bit_expr(env, 2).filter(lambda e: e[0] != "bconst"))
+    e = draw(bit_expr(env, 2))
+    if e[0] in ("bconst", "in", "sig", "var", "loc"):
+        e = ["not", draw(bit_leaf(env))]
     env.loc_bits.append(name)
     return {"k": "bind", "bind": name, "e": e}
 
@@ -669,6 +676,10 @@ def design(draw, flavor, reset=None, max_stmts=5, depth=2):
         spec["body"] = body
     else:
         spec["body"] = draw(block(env, depth, min_size=1, max_size=max_stmts))
+        if flavor == "coro" and False and not _unambiguous_first(spec["body"][0]):
+            # "the very first action of the process" is only unambiguous for a plain assignment, a plain
+            # `await <signal>` / `await true|false` or a `while <signal>|True`: otherwise start with an assignment
+            spec["body"].insert(0, draw(_plain_assign(env)))
         if flavor == "comb":
             # combinational style: every output gets a value on every path (no latches, whose content
             # after initialisation with undefined inputs is not determined by the property)
@@ -676,6 +687,25 @@ def design(draw, flavor, reset=None, max_stmts=5, depth=2):
                     "e": draw(source_for(Env(spec, "comb"), o["kind"], W if o["kind"] == "u" else 1))} for o in outputs]
             spec["body"] = pre + spec["body"]
     return spec
+
+
+def _unambiguous_first(s):
+    k = s["k"]
+    if k in ("assign", "next", "var", "value", "push"):
+        return s["t"].get("acc") is None or True
+    if k == "await":
+        return isinstance(s["c"], str) or s["c"][0] in ("in", "sig")
+    if k == "while":
+        return s["c"] == "true" or s["c"][0] in ("in", "sig")
+    return False
+
+
+@st.composite
+def _plain_assign(draw, env):
+    sig_v = [n for n in env.sig_vecs if n not in env.push]
+    sig_b = [n for n in env.sig_bits if n not in env.push]
+    t, (kind, w) = draw(sig_target(env, sig_v, sig_b, allow_acc=False))
+    return {"k": "assign", "t": t, "e": draw(source_for(env, kind, w))}
 
 
 @st.composite
